@@ -430,7 +430,7 @@ fn check_signatures(st: &mut Stats) {
 
 pub fn run(tier: Tier) -> i32 {
     let mut rep = Report::new("C15", tier);
-    let depth = tier.pick(4, 6);
+    let depth = tier.pick(5, 7);
     let model = Reg { depth, ops: all_ops() };
     let nops = model.ops.len();
     let mut st = Stats::default();
